@@ -810,7 +810,23 @@ let make_m1 (params : string list) : machine =
                  | _ -> None) in
             (match via_index with
              | Some o when show_out (snd (fstep_sha !fs o)) = impl -> Some "C07-unloaded-object-stale-index"
-             | _ -> classify_m1 !prev toks model impl));
+             | _ ->
+                 (* C14-stale-root-key, reads of a deleted version: recognised exactly - the
+                    implementation must answer what the physical model computes by loading that
+                    version from the model's physical store (PruneAlgo.load_version on phys_of) *)
+                 (match toks with
+                  | "r" :: t :: (("get" | "has" | "gwi" | "gbi" | "size" | "height" | "hash" | "iter" | "iterr" | "iteri" | "iterate") :: _ as rd)
+                    when t <> "w" && model = "err" && not is_legacy ->
+                      let n = z_of_string (String.sub t 1 (String.length t - 1)) in
+                      let phys = phys_of !rk !st.forest in
+                      let rec nat_of_int k = if k <= 0 then O else S (nat_of_int (k - 1)) in
+                      (match load_version_sha (nat_of_int (List.length phys + 1)) phys n with
+                       | POk tr ->
+                           let tmp = { !st with forest = [ (n, tr) ] } in
+                           let predicted = (try show_out (snd (m_step tmp (ORead (TVersion n, parse_read rd)))) with _ -> "?") in
+                           if predicted = impl then Some "C14-stale-root-key" else None
+                       | _ -> None)
+                  | _ -> classify_m1 !prev toks model impl)));
     dump = (fun () ->
         (* the database image written by the proved encoder of the whole image (DbImage.encode_image)
            from the model's physical store, index and label *)
